@@ -449,6 +449,15 @@ func RunConvergingFleet(q quietFleet, env *runner.Env, res *runner.Result) {
 		time.Sleep(time.Duration(r.Intn(1500)) * time.Microsecond)
 	}
 	const wd = 30 * time.Second
+	if q.LateAt != "" {
+		// "after all other writes" must also hold for the stamps: in shadow mode a version is stamped when its
+		// instance captures it, so every earlier write has to be captured before the late one is made
+		for round := 0; round < 2; round++ {
+			for _, l := range loops {
+				l.WaitQuiescent(nil, 5, wd)
+			}
+		}
+	}
 	if q.LateAt != "" && q.LateForced {
 		// an ordinary deletion on i0, fully synced, before the late commit
 		x := insts[0]
